@@ -156,7 +156,7 @@ def _block(draw, idx, hexgeom, allow_oxide, isotopics, allow_grid):
 
 
 @st.composite
-def bp_spec(draw, max_rings=3, tier="quick"):
+def bp_spec(draw, max_rings=3, tier="quick", allow_int_ids=False):
     geom = draw(st.sampled_from(["hex", "hex_corners_up", "cartesian", "hex", "cartesian"]))
     hexgeom = geom.startswith("hex")
     if hexgeom:
@@ -174,6 +174,9 @@ def bp_spec(draw, max_rings=3, tier="quick"):
     spec["isotopics"] = [draw(_isotopic(k)) for k in range(n_iso)]
     n_blocks = draw(st.integers(1, 4))
     spec["blocks"] = [draw(_block(k, hexgeom, allow_oxide, spec["isotopics"], True)) for k in range(n_blocks)]
+    for b in spec["blocks"]:
+        # pin `grid contents` written with bare integers (1 instead of '1'); only drawn while that shape is searched
+        b["gridIntIds"] = bool(allow_int_ids and draw(st.booleans()))
     n_designs = draw(st.sampled_from([2, 3, 2, 3, 1]))
     shared_heights = [round(draw(st.floats(5.0, 60.0)), 3) for _ in range(4)]
     spec["sharedHeights"] = shared_heights
@@ -336,7 +339,7 @@ def pin_grid_cells(b, hexgeom=True):
 
 def render_block(spec, b, grids):
     hexgeom = spec["geom"].startswith("hex")
-    P = spec["pitch"]
+    P = round(spec["pitch"] * b.get("pitchScale", 1.0), 3)
     Py = round(P * spec["ry"], 4)
     spell = SHAPE_SPELLING[b["spell"]]
     tin, thot = b["tin"], b["thot"]
@@ -613,6 +616,8 @@ def grid_text(name, geom, symmetry, contents=None, lattice=None, pitch=None, ind
 
 
 def yaml_scalar(x):
+    if isinstance(x, int):
+        return str(x)
     return "'%s'" % x if (x[0].isdigit() or x in ("Y", "N", "y", "n")) else x
 
 
@@ -670,8 +675,10 @@ def render(spec):
                 if (d["modMask"][pos] >> mi) & 1 or forced:
                     by_block.setdefault(mod, [None] * nb)[pos] = d["modVals"][mi][pos]
                 if two_types(b) and (d["modMask"][pos] >> (mi + 2)) & 1:
-                    cname = meat_names(b)[mi % 2]
-                    by_comp.setdefault(cname, {}).setdefault(mod, [None] * nb)[pos] = d["modVals"][mi + 2][pos]
+                    # one component per modification, or (modKinds bit 2) both components: then one name sits on two components
+                    # and one component carries two names
+                    for ci in ((0, 1) if (d["modKinds"] >> 2) & 1 else (mi % 2,)):
+                        by_comp.setdefault(meat_names(b)[ci], {}).setdefault(mod, [None] * nb)[pos] = d["modVals"][(mi + 2 + ci) % 4][pos]
         # a by-component entry is only valid if every block that gives it a value has that component
         if by_block or by_comp:
             L.append("        material modifications:")
@@ -725,7 +732,8 @@ def render(spec):
             rows, offs = mm.render_rows("hexFullTips", R, cells, strip_trailing=True, trim_rows=True)
             L += grid_text(gname, pin_geom, "full", lattice=mm.rows_to_text(rows, offs))
         else:
-            L += grid_text(gname, pin_geom, "full", contents=cells)
+            intids = any(b.get("gridIntIds") and ("pins%d" % b["idx"]) == gname for b in spec["blocks"])
+            L += grid_text(gname, pin_geom, "full", contents={k: (int(v) if intids else v) for k, v in cells.items()})
     return "\n".join(L) + "\n"
 
 
@@ -737,7 +745,7 @@ FAULT_KINDS = [
     "duplicate-grid-location", "duplicate-attribute", "mult-conflict", "by-component-unknown", "invalid-mod-key", "bad-link",
     "unknown-shape", "unknown-flag", "isotopics-unknown", "fraction-sum", "density-with-number-densities", "unknown-grid-name",
     "dup-specifier", "dup-block-name", "dup-component-name", "dup-assembly-name", "dup-grid-name",
-    "bundle-exceeds-inner-duct",
+    "bundle-exceeds-inner-duct", "bycomp-length", "bycomp-length-same-name", "assembly-area",
 ]
 _BLOCK_FAULTS = {"bundle-exceeds-inner-duct", "pins-exceed-duct", "clad-inside-out", "mult-conflict", "bad-link", "unknown-shape", "isotopics-unknown", "unknown-grid-name", "dup-component-name"}
 
@@ -810,6 +818,26 @@ def faulty(spec, kind, a):
             return None
         isos[a % len(isos)]["density"] = 5.0
         return render(spec)
+    if kind == "assembly-area":
+        # one assembly design with another cross-sectional area (all its blocks 5 % wider or narrower): every position in
+        # `assemblies:` and both directions; documented refusal: Blueprints._checkAssemblyAreaConsistency
+        nd = len(spec["designs"])
+        if nd < 2:
+            return None
+        t, scale = a % nd, (1.05 if (a // nd) % 2 else 0.95)
+        d = spec["designs"][t]
+        remap = {}
+        for k in d["blocks"]:
+            if k not in remap:
+                nb_ = copy.deepcopy(spec["blocks"][k])
+                nb_["idx"] = len(spec["blocks"])
+                nb_["pitchScale"] = scale
+                remap[k] = nb_["idx"]
+                spec["blocks"].append(nb_)
+        d["blocks"] = [remap[k] for k in d["blocks"]]
+        return render(spec)
+    if kind in ("mod-length", "bycomp-length", "bycomp-length-same-name"):
+        return _faulty_mod_lists(spec, used_designs, kind, a)
     if kind == "dup-specifier":
         if len(used_designs) < 2:
             return None
@@ -878,13 +906,6 @@ def faulty(spec, kind, a):
         ok = edit_list("        xs types: ", "A")
     elif kind == "mesh-length":
         ok = edit_list("        axial mesh points: ", "1")
-    elif kind == "mod-length":
-        ok = False
-        for i in range(da, db):
-            if re.match(r"^ {12}[A-Za-z0-9_]+_frac: \[", L[i]):
-                L[i] = L[i][:-1] + ", 0.1]"
-                ok = True
-                break
     elif kind == "duplicate-attribute":
         i = next(i for i in range(da, db) if L[i].startswith("        specifier:"))
         L.insert(i, L[i])
@@ -916,3 +937,86 @@ def faulty(spec, kind, a):
     else:
         raise KeyError(kind)
     return ("\n".join(L) + "\n") if ok else None
+
+
+def _faulty_mod_lists(spec, used_designs, kind, a):
+    """A `material modifications` section in which exactly one list has the wrong length (one entry too many, or one too few):
+    ``mod-length``: a by-block list (any of them); ``bycomp-length``: a by-component list, any position among the lists of a
+    component that carries two modification names (the same name is then left off the other component, see below);
+    ``bycomp-length-same-name``: the first component's list too long while the second component has a correct list of the same
+    modification name (the shape ARMI's length check loses on the unchanged tree)."""
+    if kind != "mod-length":
+        # the well-formed base document needs a block with two pin types: a block that accepts modifications is given them
+        for d in used_designs:
+            if not any(two_types(spec["blocks"][k]) and block_mod_names(spec, spec["blocks"][k]) for k in d["blocks"]):
+                for k in d["blocks"]:
+                    b = spec["blocks"][k]
+                    if b["template"] == "pin" and b.get("n", 1) >= 2 and block_mod_names(spec, b) and (b["iso"] is None or spec["isotopics"][b["iso"]].get("uzr")):
+                        b["twoTypes"] = True
+                        break
+    cands = []
+    for d in used_designs:
+        accept = [pos for pos, k in enumerate(d["blocks"]) if block_mod_names(spec, spec["blocks"][k])]
+        two = [pos for pos in accept if two_types(spec["blocks"][d["blocks"][pos]])]
+        if (kind == "mod-length" and accept) or (kind != "mod-length" and two):
+            cands.append((d, accept, two))
+    if not cands:
+        return None
+    d, accept, two = cands[a % len(cands)]
+    nb = len(d["blocks"])
+    delta = -1 if (a % 2 and nb > 1 and kind != "bycomp-length-same-name") else 1
+    if kind == "bycomp-length":
+        delta = -1 if (a % 8 in (1, 7) and nb > 1) else 1  # mostly too long: a too short list fails later anyway (IndexError)
+    ref_pos = (two or accept)[0]
+    ref_block = spec["blocks"][d["blocks"][ref_pos]]
+    mods = block_mod_names(spec, ref_block)
+
+    def values(mi, only_block=None):
+        out = []
+        for pos, k in enumerate(d["blocks"]):
+            b = spec["blocks"][k]
+            ok = mods[mi] in block_mod_names(spec, b) and (only_block is None or k == only_block)
+            out.append(d["modVals"][mi][pos] if ok else None)
+        return out
+
+    def fmt(vals, wrong):
+        vals = list(vals)
+        if wrong:
+            vals = vals + [0.1] if delta > 0 else vals[:-1]
+        return "[%s]" % ", ".join("''" if v is None else repr(v) for v in vals)
+
+    pick = (a // 2) % (len(mods) if kind == "mod-length" else 2 * len(mods))
+    sec = ["        material modifications:"]
+    for mi, mod in enumerate(mods):
+        sec.append("            %s: %s" % (mod, fmt(values(mi), kind == "mod-length" and mi == pick)))
+    if two:
+        names = meat_names(ref_block)
+        wrong_c, wrong_m = (0, 0) if kind == "bycomp-length-same-name" else divmod(pick, len(mods))
+        if kind == "bycomp-length":
+            # first / middle / last list of the first / second component
+            wrong_c, wrong_m = a % 2, (0 if a % 8 < 6 else len(mods) - 1)
+        sec.append("            by component:")
+        for ci, cname in enumerate(names):
+            lines = []
+            for mi, mod in enumerate(mods):
+                wrong = kind != "mod-length" and (ci, mi) == (wrong_c, wrong_m)
+                if kind == "bycomp-length" and ci > wrong_c and mi == wrong_m and delta > 0:
+                    continue  # (a later component with the same name would hide the wrong list from the unchanged check)
+                lines.append("                    %s: %s" % (mod, fmt(values(mi, d["blocks"][ref_pos]), wrong)))
+            if lines:
+                sec += ["                %s:" % cname] + lines
+    L = render(spec).rstrip("\n").split("\n")
+    si = L.index("systems:")
+    da, db = _section(L[:si], lambda line: line == "    %s:" % d["name"], 4)
+    keep, skipping = [], False
+    for line in L[da:db]:
+        if line.startswith("        material modifications:"):
+            skipping = True
+            continue
+        if skipping and line.startswith("            "):
+            continue
+        skipping = False
+        if line.startswith("        xs types:"):
+            keep += sec
+        keep.append(line)
+    return "\n".join(L[:da] + keep + L[db:]) + "\n"
